@@ -63,7 +63,7 @@ CHECKS.update({
    text="Project a->b->c plus unrelated d: 16 fault kinds (directive errors, non-zero exit and death by signal of a command, unreadable/invalid/non-UTF-8 includes and sources, occupied or unwritable output and temp paths, in-process write limits, verify mismatches) x 5 positions of the faulty file (root, middle, leaf, sibling, sibling with an empty output) x {build, needed, verify, clean where it applies} x pool sizes (unsaturated, 1, 2) x input selections, each explored under all completion orders: the run must return Err in every schedule (never Ok, hang or panic); the fault-free baseline must return Ok with correct outputs in every schedule. Fault sequences: a fault in a->b plus a directory that vanishes while it waits to be scanned (-r), all completion orders. RLIMIT_FSIZE = n for every n from 0 to the largest generated file + 1 on the production binary: exit 0 iff nothing hit the limit, and then all outputs are complete; and on a project whose outputs end with one chunk > 8 KiB (include, command output, long last line, temp target): every multiple of 512 and +-1 around every multiple of 4096, trailing newline on/off, build and --needed."),
  "C11": dict(engine="E-tree", technique="exhaustive enumeration of directory trees x input lists x options, each executed on the real Txtpp::run (processed sources observed through the hook trace) and compared with a reference set-of-sources function",
    ref="4.7, 5/C11", note="Trusted: the reference function expected_set (harness/src/etree.rs), written from the property statement; canonical schedule.",
-   text="8 (quick) / 512 (thorough) trees over 3 directory levels x subsets of the three source-name shapes, with look-alike names in every directory, dotted-stem names and an include variant; input lists of length <=1/2 over 23 spellings (incl. sibling directories in a string-prefix relation, a directory link and a file link) (directories, either name, ./ and ../, absolute, missing, look-alikes) x recursive x build/needed/verify/clean x absolute/relative base: the processed set (hook trace), the created / removed / verified outputs and their names must be exactly what the statement prescribes; a target without source must fail; variants with source-like directory names, hard-linked sources and directories named like a sibling's output; the production binary repeats single spellings and pairs on three trees in all four modes."),
+   text="8 (quick) / 512 (thorough) trees over 3 directory levels x subsets of the three source-name shapes, with look-alike names in every directory, dotted-stem names and an include variant; input lists of length <=1/2 over 26 spellings (incl. sibling directories in a string-prefix relation, directory links, `link/..` and a file link) (directories, either name, ./ and ../, absolute, missing, look-alikes) x recursive x build/needed/verify/clean x absolute/relative base: the processed set (hook trace), the created / removed / verified outputs and their names must be exactly what the statement prescribes; a target without source must fail; variants with source-like directory names, hard-linked sources and directories named like a sibling's output; the production binary repeats single spellings and pairs on three trees in all four modes."),
  "C18": dict(engine="E-bytes", technique="bounded-exhaustive enumeration of hostile byte strings, arguments and option values, each executed on the real Txtpp::run under the controller (worker panics and the resulting coordinator hang are observed) and on the production binary",
    ref="4.7, 5/C18", note="Trusted: nothing beyond the OS. Bytes outside the 17-token alphabet and strings longer than the bound are not covered; special files are outside the domain.",
    text="All byte strings of <=3/4 tokens over 17 hostile tokens (NUL, 0xff, split UTF-8, lone CR, directive fragments) in 4 roles (source, included file, existing output, existing temp target) x 4 modes; 270+ hostile directive lines; lines of 8191/8192/8193/65537 bytes; commands writing 65536/65537/300000 bytes to stdout / stderr / both; directives with 60000 continuation lines; 70 sources named one by one of which the first fails; threads 0..16, 7 shells, bad base directories and inputs; the production binary on a 33-case core x 4 modes x thread counts x recursive: every run returns Ok or Err, no thread panics, the binary exits 0 or 1 in bounded time."),
